@@ -64,11 +64,11 @@ def glued_job(job, ctx):
                 if closed:
                     ok = res.cls == "ok"
                     why = "a balanced file with glued tags was rejected: %s" % res.err_text()[:200]
-                    sig = "C12/glued-control-rejected"
+                    sig = "C12/%s-control-rejected" % ("unicode-attribute" if variant.startswith("UNI:") else "glued")
                 else:
                     ok = res.rc != 0 and not bad_outcome(res) and name in res.err_text()
                     why = "exit %s for a file whose glued bare start tag is never closed: %s" % (res.rc, res.err_text()[:200])
-                    sig = "C12/silent-success/glued-bare-start/%s" % mode
+                    sig = "C12/silent-success/%s/%s" % ("unicode-attribute-tag" if variant.startswith("UNI:") else "glued-bare-start", mode)
                 if ok:
                     out.append(Case(HELD, key=key, nontrivial=True, sets=sets, counters={"glued_runs": 1}))
                 else:
